@@ -12,6 +12,7 @@ CFG_OBS = "Trace_NodeStore_obs.cfg"            # observables only
 CFG_INFLIGHT = "Trace_NodeStore_inflight.cfg"  # observables, reads during a prune round included
 
 INFLIGHT_SIG = "inflight-read-differs"
+DRIFT = []   # projection mismatches seen in this process (see validate)
 
 
 def split_runs(events):
@@ -87,7 +88,23 @@ def classify(ev, invariant):
     return "rejected:" + str(k)
 
 
-def validate(ctx, events, stats, label, how, cfg=CFG_PROJ, sig_override=None):
+def in_flight_read(run, idx):
+    """Is event idx of the (expanded) run a successful read of a block inside [base, target) while a prune round is
+    running (Checkpoint done, DeleteHist not yet)?  Only such a read may carry the known in-flight signature."""
+    base, pend = 0, 0
+    for e in run[:idx]:
+        if e["e"] == "Checkpoint":
+            pend = e["target"]
+        elif e["e"] == "DeleteHist":
+            base, pend = pend, 0
+        elif e["e"] == "Reset":
+            base, pend = 0, 0
+    ev = run[idx]
+    return (ev.get("e") == "Read" and pend != 0 and base <= ev["b"][0] < pend and all(ev["ok"].values())
+            and ev.get("itersame", True))
+
+
+def validate(ctx, events, stats, label, how, cfg=CFG_PROJ, inflight_sig=False):
     """Validate concatenated runs. A rejection is examined on the offending run alone:
     accepted without projections  -> spec drift (Infra, exit 2)
     rejected on an observable     -> ctx.report (violation), the run is dropped and validation continues."""
@@ -133,15 +150,25 @@ def validate(ctx, events, stats, label, how, cfg=CFG_PROJ, sig_override=None):
                 where = describe(single[hwmp]) if 0 <= hwmp < len(single) else "?"
                 rp = ctx.save_replay("drift-%s-run%d.json" % (label, bad), {"how": how, "run_header": hdr, "trace": single,
                                                                           "first_projection_mismatch": hwmp})
-                raise Infra("spec drift: run %s/%s (%s) agrees with NodeStore.tla on every observable but not on a "
-                            "projection (key spaces / exact failing reads) at event #%d %s; artefact %s"
-                            % (label, bad, hdr.get("cfgname"), hwmp, where, rp))
+                # not a violation (DESIGN 2 "observables decide, projections bind"); remembered, reported as exit 2 at the
+                # end of the check unless a violation is found elsewhere. The run's observables are all fine: drop it.
+                DRIFT.append("spec drift: run %s/%s (%s) agrees with NodeStore.tla on every observable but not on a "
+                             "projection (key spaces / exact failing reads) at event #%d %s; artefact %s"
+                             % (label, bad, hdr.get("cfgname"), hwmp, where, rp))
+                ctx.cov.setdefault("projection_mismatches", 0)
+                ctx.cov["projection_mismatches"] += 1
+                idx = pending.index(bad)
+                ctx.cov["traces_validated_against_impl"] += idx
+                pending = pending[idx + 1:]
+                continue
             raise Infra("run rejected in a batch but accepted alone: %s run %d" % (label, bad))
         off2 = hwm2 if 0 <= hwm2 < len(single) else len(single) - 1
         ev = single[off2]
         what = ("invariant %s of NodeStore.tla fails on the observed execution" % r2.invariant) if r2.invariant \
             else "the implementation's answer is not allowed by NodeStore.tla"
-        sig = sig_override or classify(ev, r2.invariant)
+        sig = classify(ev, r2.invariant)
+        if inflight_sig and sig == "read-differs" and in_flight_read(single, off2):
+            sig = INFLIGHT_SIG
         rp = ctx.save_replay("%s-run%d-seed%s.json" % (label, bad, hdr.get("seed")),
                              {"how": how, "run_header": hdr, "offending_index": off2, "offending_event": ev,
                               "tlc_verdict": what, "cfg": ocfg, "stats": stats[bad] if bad < len(stats) else None,
@@ -199,7 +226,7 @@ def inflight_probe(ctx):
     if not events:
         return
     before = len(ctx.violations) + len(ctx.known_hit)
-    validate(ctx, events, stats, "inflight", {"mode": "inflight"}, cfg=CFG_INFLIGHT, sig_override=INFLIGHT_SIG)
+    validate(ctx, events, stats, "inflight", {"mode": "inflight"}, cfg=CFG_INFLIGHT, inflight_sig=True)
     ctx.cov["inflight_probe"] = "differs" if len(ctx.violations) + len(ctx.known_hit) > before else "conforms"
 
 
@@ -215,7 +242,7 @@ def e2e(ctx, seed, blocks, runs, label, inflight=False):
             ctx.report("e2e-prune-error", "real pruner failed (%s seed %s): %s" % (rep["cfg"], seed, pe), rp)
         seen = set()
         for m in rep["mismatches"]:
-            if m["class"] == "inflight":
+            if m["class"] == "inflight" and m["phase"] == "in-flight" and m["got"] != "ERR" and m["key"] != "PANIC":
                 sig = INFLIGHT_SIG
             elif m["key"] == "PANIC":
                 sig = "e2e-panic"
